@@ -108,11 +108,9 @@ func parseDeclaration(firstToken Token, tokens *TokensIter, nested bool) Compoun
 		sBang
 	)
 	var (
-		value                 []Token
-		state                 = sValue
-		bangPosition, i       = 0, -1
-		containsNonWhitespace = false
-		containsSimpleBlock   = false
+		value           []Token
+		state           = sValue
+		bangPosition, i = 0, -1
 	)
 	for tokens.HasNext() {
 		i += 1
@@ -122,22 +120,8 @@ func parseDeclaration(firstToken Token, tokens *TokensIter, nested bool) Compoun
 			bangPosition = i
 		} else if ident, _ := token.(Ident); state == sBang && utils.AsciiLower(ident.Value) == "important" {
 			state = sImportant
-		} else {
-			switch token.Kind() {
-			case KWhitespace, KComment:
-			// pass
-			case KCurlyBracketsBlock:
-				state = sValue
-				if containsNonWhitespace {
-					containsSimpleBlock = true
-				} else {
-					containsNonWhitespace = true
-				}
-			default:
-				state = sValue
-				containsNonWhitespace = true
-
-			}
+		} else if kind := token.Kind(); kind != KWhitespace && kind != KComment {
+			state = sValue
 		}
 		value = append(value, token)
 	}
@@ -146,8 +130,22 @@ func parseDeclaration(firstToken Token, tokens *TokensIter, nested bool) Compoun
 		value = value[:bangPosition]
 	}
 
+	// A top-level {} block is only allowed as the entire value of a declaration
+	// ("!important" excluded): https://drafts.csswg.org/css-syntax-3/#consume-declaration
 	// TODO: Handle custom property names
-	if containsSimpleBlock && containsNonWhitespace {
+	containsSimpleBlock, significant := false, 0
+	for _, token := range value {
+		switch token.Kind() {
+		case KWhitespace, KComment:
+			// pass
+		case KCurlyBracketsBlock:
+			containsSimpleBlock = true
+			significant += 1
+		default:
+			significant += 1
+		}
+	}
+	if containsSimpleBlock && significant > 1 {
 		return ParseError{pos: colon.Pos(), kind: errInvalid, Message: "Declaration contains {} block"}
 	}
 
